@@ -109,7 +109,8 @@ Definition origin_eqb (a b : origin) : bool :=
 (* which repaired variant of the code the tree implements (probed by the harness on every run) *)
 Record fixes := {
   fx77 : bool;    (* register_term_frequency_lookup evicts a Splink-computed concat_with_tf *)
-  fx716 : bool    (* estimate_u computes its blocked pairs with use_cache=False *)
+  fx716 : bool;   (* estimate_u computes its blocked pairs with use_cache=False *)
+  fx715 : bool    (* realtime compare_records tracks the table created on the cached-SQL path (C18) *)
 }.
 
 Inductive event :=
